@@ -280,8 +280,70 @@ def _stream_suite(ctx: Ctx):
             break
 
 
+def _typed_and_large_suite(ctx: Ctx):
+    """memoryviews with itemsize > 1 (array-backed) at all sizes, and large buffers around power-of-two
+    boundaries (a chunked / looped write path would only show there). Large cases: oracle only."""
+    import array
+    import hashlib
+    from torchsnapshot.io_types import ReadIO, WriteIO
+    from torchsnapshot.storage_plugins.fs import FSStoragePlugin
+
+    root = os.path.join(OUT_DIR, f"c20_typed_{os.getpid()}")
+    shutil.rmtree(root, ignore_errors=True)
+    loop = asyncio.new_event_loop()
+    plugin = FSStoragePlugin(root=root)
+    fmts = ["B", "b", "h", "H", "i", "q", "d", "f"]
+    try:
+        small = [0, 1, 2, 3, 7, 255, 1000]
+        big_q = [(1 << 24) + 4096, (1 << 23) + 1, (1 << 20) - 1]
+        big_t = big_q + [(1 << 25) + 3, (1 << 22) + 7, (1 << 16) + 1, 3 * (1 << 20)]
+        cases = [(f, n) for f in fmts for n in small]
+        bigs = big_q if ctx.quick else big_t
+        cases += [(ctx.rng.choice(["h", "i", "q", "d"]), n) for n in bigs] + [("B", n) for n in bigs[:2]]
+        for ci, (fmt, n) in enumerate(cases):
+            if ctx.time_left() < 10:
+                ctx.notes.append("typed/large suite stopped early")
+                break
+            a = array.array(fmt, bytes((i * 131 + 7) % 251 for i in range(min(n, 4096) * array.array(fmt).itemsize)))
+            if n > 4096:
+                reps = n // 4096 + 1
+                a = (a * reps)[:n]
+            mv = memoryview(a)
+            data = a.tobytes()
+            path = f"typed/{fmt}_{n}_{ci}"
+            loop.run_until_complete(plugin.write(WriteIO(path=path, buf=mv)))
+            rio = ReadIO(path=path)
+            loop.run_until_complete(plugin.read(rio))
+            got = rio.buf.getvalue()
+            inp = {"fmt": fmt, "elements": n, "itemsize": mv.itemsize, "nbytes": len(data)}
+            if got != data:
+                first = next((i for i in range(min(len(got), len(data))) if got[i] != data[i]), min(len(got), len(data)))
+                ctx.fail("fs-typed-memoryview-mismatch", "write of a typed/large memoryview did not read back identically", inp,
+                         {"len_written": len(data), "len_read": len(got), "first_diff": first})
+            # a ranged read across the middle and the tail
+            if len(data) >= 4:
+                for (lo, hi) in [(len(data) // 2 - 1, len(data) // 2 + 2), (len(data) - 3, len(data))]:
+                    rio = ReadIO(path=path, byte_range=(lo, hi))
+                    loop.run_until_complete(plugin.read(rio))
+                    if rio.buf.getvalue() != data[lo:hi]:
+                        ctx.fail("fs-read-mismatch", "ranged read of a typed/large object returned wrong bytes", dict(inp, range=[lo, hi]), None)
+            if ctx.driver and len(data) <= 8192:
+                rep = ctx.driver.call({"op": "fs_script", "steps": [{"k": "write", "path": path, "data": list(data)},
+                                                                      {"k": "read", "path": path, "range": None}]})
+                if rep.get("outs") != [{"ok": True}, {"bytes": list(got)}]:
+                    ctx.disagree("fs_typed", inp, {"len": len(got), "sha": hashlib.sha1(got).hexdigest()}, "model differs")
+            os.remove(os.path.join(root, path))
+            ctx.count(f"fs.typed.itemsize{mv.itemsize}")
+            ctx.count("fs.typed.large" if n > 4096 else "fs.typed.small")
+            ctx.case("fs_typed_large", inp, nontrivial=n > 0, key=inp)
+    finally:
+        loop.close()
+        shutil.rmtree(root, ignore_errors=True)
+
+
 def run(ctx: Ctx):
     _fs_suite(ctx)
+    _typed_and_large_suite(ctx)
     _exhaustive_ranges(ctx)
     _stream_suite(ctx)
 
